@@ -157,6 +157,9 @@ class Run(object):
             print("KNOWN-FINDING: property=%s %s [%s]" % (
                 self.prop, e.get('what', ''), sig))
         os.makedirs(REPLAY_DIR, exist_ok=True)
+        for old in os.listdir(REPLAY_DIR):
+            if old.startswith(self.prop + '_'):
+                os.unlink(os.path.join(REPLAY_DIR, old))
         violations.sort(key=lambda f: (f.deviations, f.signature))
         for f in violations:
             h = hashlib.sha1(f.signature.encode()).hexdigest()[:10]
